@@ -392,7 +392,7 @@ class Checker:
 
     def corr(self, obs, case, impl, model):
         self.ok = False
-        self.ctx.corr_break("C16/" + obs, case, {"impl": str(impl)[:600], "model": str(model)[:600]})
+        self.ctx.corr_break(self.ctx.prop + "/" + obs, case, {"impl": str(impl)[:600], "model": str(model)[:600]})
 
     def viol(self, probe, tags, case, detail):
         if self.ctx.violation(probe, tags, case, detail):
